@@ -113,9 +113,9 @@ class Objective:
         nb_sub_objectives = len(self.multipliers)
 
         # re-arrange to match the different objectives with the model outputs
-        masks = np.array([np.array(m, dtype=object) for m in itertools.product(*self.masks)])
-        masks = [tf.cast(tf.stack(list(masks[:, i])), tf.float32) for i in
-                 range(nb_sub_objectives)]
+        combinations = list(itertools.product(*self.masks))
+        masks = [tf.cast(tf.stack([combination[i] for combination in combinations]), tf.float32)
+                 for i in range(nb_sub_objectives)]
 
         # the name of each combination is the concatenation of each objectives
         names = np.array([' & '.join(names) for names in
